@@ -117,9 +117,15 @@ DoBoot(op) ==
   /\ LET pos == BootPos(st) IN
      \E r1 \in EntranceResponses(pos[1], pos[2]) : Finish(Boot(st, r1), op, r1, FALSE)
 
+\* The code resolves a tie between the most voted targets by the smaller hash; the model has no hash bytes, so the
+\* environment does not produce a view in which two targets share the top vote count (that needs half of the
+\* validators to equivocate)
+NoTopTie(p) == \A t, u \in DOMAIN p : (t # u /\ p[t] # {} /\ \A w \in DOMAIN p : Cardinality(p[t]) >= Cardinality(p[w]))
+                                        => Cardinality(p[u]) < Cardinality(p[t])
 DoView == /\ Up /\ ~s.replaying
           /\ \E d \in Deltas : \E c \in Crashes :
-               Finish(ViewUpdate(Ctx0(s, st), [v |-> AddDelta(s.vrv, d), jump |-> NoJump]), "View", d, c)
+               /\ NoTopTie(AddDelta(s.vrv, d).pv) /\ NoTopTie(AddDelta(s.vrv, d).pc)
+               /\ Finish(ViewUpdate(Ctx0(s, st), [v |-> AddDelta(s.vrv, d), jump |-> NoJump]), "View", d, c)
 
 DoJump == /\ Up /\ ~s.replaying /\ s.R < MaxR
           /\ Finish(ViewUpdate(Ctx0(s, st), [v |-> NoView, jump |-> [h |-> s.H, r |-> s.R + 1]]), "Jump", [h |-> s.H, r |-> s.R + 1], FALSE)
